@@ -28,7 +28,7 @@ extern "C" void h_after_growth(void) {
       if (f.gen) for (int q = 0; q < r; ++q) vp_assert(seen[q] != seen[r], 4);      // generative constructors: distinct from every other live node
    }
 #if C05_FULL_ROUND
-   for (unsigned k = 0; k < total; ++k) { First_node f; zoo::build(*w, k, f); }
+   for (unsigned k = 0; k < total; ++k) { First_node f; w->reg = w->unit.global_region()->make_subregion(); zoo::build(*w, k, f); }
    t.recheck(5);
 #endif
    vp_done();
@@ -49,7 +49,7 @@ extern "C" void h_after_others(void) {
    t.snapshot();
    for (int round = 0; round < 2; ++round) {
       w->tick = round;
-      for (unsigned k = 0; k < total; ++k) { First_node f; zoo::build(*w, k, f); }
+      for (unsigned k = 0; k < total; ++k) { First_node f; w->reg = w->unit.global_region()->make_subregion(); zoo::build(*w, k, f); }      // each case declares into a scope of its own (the cases reuse names and types for declarations of different kinds)
       t.recheck(6);
    }
    vp_done();
